@@ -94,16 +94,28 @@ def run(ck, facts):
     if not os.path.exists(spec_p):
         raise C.CheckError("spec/ownership.json missing")
     spec = json.load(open(spec_p))["groups"]
+    # the hard bound is per operation kind over the whole crate: an operation that moved between groups (a helper shared by an exported fn and a callback, a method that
+    # became a free fn) is still one of the triaged ones as long as the crate does not contain MORE of its kind than were triaged
+    tot_inv, tot_spec = {}, {}
+    for g, ops in inv.items():
+        for op, n in ops.items():
+            tot_inv[op] = tot_inv.get(op, 0) + n
+    for g, ops in spec.items():
+        for op, ent in ops.items():
+            tot_spec[op] = tot_spec.get(op, 0) + ent["count"]
     for g, ops in sorted(inv.items()):
         for op, n in sorted(ops.items()):
             ent = spec.get(g, {}).get(op)
             key = "%s/%s" % (g, op)
             fs = where_[(g, op)]
-            if ent is None:
-                ck.bad("R1", key, "untriaged ownership operation %s (x%d) in %s (%s): who releases the value now?" % (op, n, g, ", ".join(sorted({x["path"] for x in fs}))[:200]), C.loc(fs[0]))
+            within = ent is not None and n <= ent["count"]
+            moved_ok = tot_inv.get(op, 0) <= tot_spec.get(op, 0)
+            if within or moved_ok:
+                ck.ok("R1", key, ("; ".join(ent.get("roles", []))[:160] if within else "moved within the crate: %d of %d triaged `%s` operations present" % (tot_inv[op], tot_spec[op], op)), C.loc(fs[0]))
+            elif ent is None:
+                ck.bad("R1", key, "untriaged ownership operation %s (x%d) in %s (%s; the crate now has %d of them, %d triaged): who releases the value now?" % (op, n, g, ", ".join(sorted({x["path"] for x in fs}))[:200], tot_inv.get(op, 0), tot_spec.get(op, 0)), C.loc(fs[0]))
             else:
-                ck.expect(n <= ent["count"], "R1", key, "; ".join(ent.get("roles", []))[:160],
-                          "%s occurs %d times in %s, the triaged table allows %d: a new unsafe ownership operation must be triaged" % (op, n, g, ent["count"]), C.loc(fs[0]))
+                ck.bad("R1", key, "%s occurs %d times in %s, the triaged table allows %d (crate-wide %d, triaged %d): a new unsafe ownership operation must be triaged" % (op, n, g, ent["count"], tot_inv.get(op, 0), tot_spec.get(op, 0)), C.loc(fs[0]))
     gone = sorted("%s/%s" % (g, op) for g, ops in spec.items() for op in ops if inv.get(g, {}).get(op) is None)
     if gone:
         ck.note("triaged ownership operations no longer present (accepted; lost releases are the business of R2b/R3): %s" % gone)
@@ -186,7 +198,7 @@ def run(ck, facts):
 
     # ---- R2b Drop for DiplomatResult
     f = rt.fn("<diplomat_runtime::result::DiplomatResult<T, E> as core::ops::drop::Drop>::drop")
-    m = mirfns[f["path"]]
+    m = MirFn(C.inline_mir(rt, f))     # accessor helpers of the payload union spliced in
     c0 = None
     flag_bb = None
     for bid in sorted(m.cfg.blocks):
@@ -218,8 +230,21 @@ def run(ck, facts):
                                 fld = x[2][1:]
                         dropped = True
                         if (C.mir_callee(tt) or "").endswith("::take"):
-                            dl = tt["dest"]["l"]
-                            dropped = any(m.cfg.blocks[b2]["term"]["k"] == "drop" and m.cfg.blocks[b2]["term"]["place"]["l"] == dl for b2 in p)
+                            # the value taken out is dropped further down the path: by a drop terminator or mem::drop, possibly after being moved through other locals
+                            holders = {tt["dest"]["l"]}
+                            dropped = False
+                            for b2 in p[p.index(bb) + 1:]:
+                                blk2 = m.cfg.blocks[b2]
+                                for s2 in blk2["stmts"]:
+                                    if s2["k"] == "assign" and not s2["lhs"].get("p") and s2["rv"]["k"] == "use":
+                                        src = s2["rv"]["op"].get("move") or s2["rv"]["op"].get("copy")
+                                        if src and not src.get("p") and src["l"] in holders:
+                                            holders.add(s2["lhs"]["l"])
+                                t2 = blk2["term"]
+                                if t2["k"] == "drop" and t2["place"]["l"] in holders:
+                                    dropped = True
+                                if t2["k"] == "call" and (C.mir_callee(t2) or "").endswith("mem::drop") and any((a_.get("move") or {}).get("l") in holders for a_ in t2["args"]):
+                                    dropped = True
                         rel.append((fld, dropped))
                 ck.expect(rel == [(want, True)], "R2b", "DiplomatResult::drop/%s-edge" % want, "releases %s exactly once" % want,
                           "on the is_ok=%s edge Drop releases %s (expected exactly the `%s` payload, dropped): leak or wrong arm" % (is_ok_edge, rel, want), C.loc(f))
@@ -241,7 +266,7 @@ def run(ck, facts):
         ck.expect(isinstance(bufv, tuple) and bufv[0] == "call" and str(bufv[1]).endswith("::as_mut_ptr") and sym_is_arg(agg["cap"], 1),
                   "R3", "buffer_write_create/fields", "buf = vec.as_mut_ptr(), cap = cap", "create stores buf=%s cap=%s" % (sym_show(agg["buf"]), sym_show(agg["cap"])), C.loc(cr))
     de = rt.fn("diplomat_buffer_write_destroy")
-    md = mirfns[de["path"]]
+    md = MirFn(C.inline_mir(rt, de))     # with private helpers (`backing_vec`) spliced in
     dn = {}
     for bb, t in md.calls():
         dn.setdefault(short(C.mir_callee(t) or "indirect"), []).append((bb, t))
@@ -377,10 +402,13 @@ def run(ck, facts):
             for v_ in node:
                 places_in(v_, out)
     n6 = 0
+    seen6 = set()
     for f in rt.fn_list:
-        mir = f.get("mir")
-        if not mir or "blocks" not in mir:
+        mir0 = f.get("mir")
+        if not mir0 or "blocks" not in mir0 or f.get("dk") == "Closure":
             continue
+        fi = C.inline_mir(rt, f)       # union accessor helpers (`self.value.ok_ref()`) are judged where the DiplomatResult they are applied to is visible
+        mir = fi["mir"]
         m = None
         for b in mir["blocks"]:
             if b.get("cleanup"):
@@ -389,14 +417,22 @@ def run(ck, facts):
             places_in(b["stmts"], ps)
             places_in(b["term"], ps)
             for pl in ps:
-                pr = pl["p"]
-                arm = next((x for x in pr if x in (".ok", ".err")), None)
-                if not arm or ".value" not in pr or "DiplomatResult" not in mir["locals"][pl["l"]]["ty"]:
+                if not any(x in (".ok", ".err") for x in (pl.get("p") or [])):
                     continue
-                m = m or MirFn(f)
+                m = m or MirFn(fi)
+                term = m.sym_place({"l": pl["l"], "p": pl["p"]})
+                hit = None
+                for x in sym_walk(term):
+                    if x[0] == "proj" and x[2] in (".ok", ".err") and isinstance(x[1], tuple) and x[1][0] == "proj" and x[1][2] == ".value":
+                        hit = (x[2], x[1][1])
+                if not hit:
+                    continue
+                arm, base_t = hit
+                base = C.sym_root(base_t)
+                if (f["path"], b["id"], arm) in seen6:
+                    continue
+                seen6.add((f["path"], b["id"], arm))
                 n6 += 1
-                base = C.sym_root(m.sym_place({"l": pl["l"], "p": pr[:pr.index(".value")]}))
-                # the switches on <base>.is_ok whose matching edge dominates this block
                 ok_guard = False
                 for sb, sblk in m.cfg.blocks.items():
                     t = sblk["term"]
@@ -411,7 +447,7 @@ def run(ck, facts):
                         truthy = (ev == "otherwise" and all(v_ == 0 for v_, _ in t["targets"])) or (ev != "otherwise" and ev and all(v_ != 0 for v_ in ev))
                         if truthy == (arm == ".ok") and m.cfg.pred.get(succ) == [sb] and m.cfg.dominates(succ, b["id"]):
                             ok_guard = True
-                key = "%s/%s@bb%d" % (C.norm_path(f["path"]).replace("diplomat_runtime::", ""), arm[1:], b["id"])
+                key = "%s/%s#%d" % (C.norm_path(f["path"]).replace("diplomat_runtime::", ""), arm[1:], sum(1 for i in ck.instances if i["rule"] == "R6" and i["key"].startswith("%s/%s#" % (C.norm_path(f["path"]).replace("diplomat_runtime::", ""), arm[1:]))))
                 ck.expect(ok_guard, "R6", key, "under %s.is_ok == %s" % (C.sym_show(base), arm == ".ok"),
                           "the `%s` arm of the result union is accessed without a dominating test of the same object's is_ok selecting it (base %s): the live payload is read or dropped as the wrong type when the flags of two values differ"
                           % (arm[1:], C.sym_show(base)), C.loc(f))
